@@ -35,6 +35,7 @@ CL             == [op |-> "CL", c |-> 0]
 WM(t, s)       == [op |-> "WM", c |-> 0, type |-> t, size |-> s]
 WJ(s)          == [op |-> "WJ", c |-> 0, size |-> s]
 WJB            == [op |-> "WJB", c |-> 0]
+WRO            == [op |-> "WRO", c |-> 0]     \* Write on a writer that has ended: no effect
 WC(t, s, dl)   == [op |-> "WC", c |-> 0, type |-> t, size |-> s, dl |-> dl]
 WP(p)          == [op |-> "WP", c |-> 0, pm |-> p]
 SD(d)          == [op |-> "SD", c |-> 0, dl |-> d]
@@ -238,6 +239,7 @@ DoWP(o) ==
 DoSet(o) ==
   LET st == St
       st2 == CASE o.op = "SD" -> [st EXCEPT !.dl = o.dl]
+               [] o.op = "WRO" -> st
                [] o.op = "EC" -> [st EXCEPT !.wcomp = o.on]
                [] o.op = "SL" -> IF o.level \in -2..9 THEN [st EXCEPT !.level = o.level] ELSE st
                [] o.op = "XC" -> st
